@@ -164,6 +164,8 @@ def oracle(obs: Any, postprocessed: bool = True) -> List[Dict[str, Any]]:
         if o['cls'] in ('Function', 'Attribute') and o['contents']:
             fails.append({'code': 'I5', 'sub': 'leaf', 'obj': i, 'what': '%s has children %s'
                           % (nm(i), [k for k, _ in o['contents']])})
+        if i in roots and obs['roots'].count(i) > 1:
+            fails.append({'code': 'I5', 'sub': 'root', 'obj': i, 'what': 'root object %s is listed twice in rootobjects' % nm(i)})
         if i in roots and (o['cls'] not in ('Module', 'Package') or q is not None):
             fails.append({'code': 'I5', 'sub': 'root', 'obj': i, 'what': 'root object %s is not a top-level module'
                           % nm(i)})
